@@ -517,27 +517,30 @@ Section Conf.
   Definition too_large : gerr := Wire (W (std_code SUnsupported) (s "query parameter n is too large") None).
 
   Lemma next_list_results_cases rreq l e :
-    (exists items link, next_list_results o req rreq (l, e) = Ok (items, link))
+    (exists items link, next_list_results o req rreq (l, e) = Ok (items, link) /\ (e = None \/ l <> []))
     \/ next_list_results o req rreq (l, e) = Err too_large
     \/ (exists e', e = Some e' /\ next_list_results o req rreq (l, e) = Err e').
   Proof.
     unfold next_list_results. destruct (_ && _); [right; left; reflexivity|].
     destruct (next_items (q_listn rreq) l []) as [items truncated] eqn:NI.
+    assert (Hl : truncated = true -> l <> []).
+    { intros -> ->. cbn in NI. discriminate. }
     destruct truncated.
-    - cbn [andb]. destruct (negb (o_omit_link o)); [|left; eauto].
-      destruct (rev items) as [|last r] eqn:ER; [|left; eauto].
+    - cbn [andb]. destruct (negb (o_omit_link o)); [|left; eauto 6].
+      destruct (rev items) as [|last r] eqn:ER; [|left; eauto 6].
       exfalso. apply next_items_trunc in NI. apply NI.
       apply (f_equal (@rev bytes)) in ER. now rewrite rev_involutive in ER.
-    - destruct e as [e'|]; [right; right; eauto | left; cbn [andb]; eauto].
+    - destruct e as [e'|]; [right; right; eauto | left; cbn [andb]; eauto 6].
   Qed.
 
   Ltac list_tac :=
     match goal with |- context [next_list_results o req ?rq (?l, ?e)] =>
       let E := fresh "E" in
-      destruct (next_list_results_cases rq l e) as [(items & link & E)|[E|(e' & ? & E)]]; rewrite E;
-      [ unfold list_response; destruct link; leaf
-      | leaf
-      | try match goal with H : Some _ = Some _ |- _ => inversion H; subst end; leaf ]
+      destruct (next_list_results_cases rq l e) as [(items & link & E & [?|?])|[E|(e' & ? & E)]];
+      try congruence; rewrite E; unfold list_response;
+      try (match goal with |- context [match ?lk with [] => _ | _ :: _ => _ end] => is_var lk; destruct lk end);
+      try match goal with H : Some _ = Some _ |- _ => inversion H; subst end;
+      leaf
     end.
 
   Lemma tags_list_post b rreq :
@@ -609,15 +612,16 @@ Section Conf.
     destruct st as [b0 tr [hd stt bd js]]. cbn [h_tr h_b h_w w_status] in *. subst stt.
     eexists. split; [reflexivity|]. cbn [h_tr h_b]. split; [reflexivity|]. split; [reflexivity|].
     unfold spec_ok. rewrite Ha, Hc.
-    unfold status_ok, headers_ok.
+    unfold status_ok, headers_ok, errors_answered, is_failure.
     cbn [h_w set_hdr upd_w write_header write_body w_status w_hdrs w_body w_json finish p_json p_hdrs p_status
          r_err r_status marshal_error w_code].
     rewrite hget_hset_eq. cbn [option_eqb]. rewrite beqb_refl.
     assert (N1 : negb (beqb (marshal_code e) []) = true).
     { apply negb_true_iff, beqb_neq, marshal_code_nonempty. }
     rewrite N1. cbn [andb].
-    destruct (lookup (marshal_code e) error_statuses) as [stc|] eqn:L; [|reflexivity].
-    rewrite (marshal_status_table e stc L), Z.eqb_refl. reflexivity.
+    assert (I : forall x, implb' x true = true) by (intros []; reflexivity).
+    destruct (lookup (marshal_code e) error_statuses) as [stc|] eqn:L; [|now rewrite I].
+    rewrite (marshal_status_table e stc L), Z.eqb_refl. now rewrite I.
   Qed.
 
   Lemma parse_errors_servable :
